@@ -458,6 +458,8 @@ func VH_C03_Astral() { vhC03(vhDefAstral()) }
 
 func VH_C03_OddNames() { vhC03(vhDefOddNames()) }
 
+func VH_C03_LiteralMB() { vhC03(vhDefLiteralMB()) }
+
 func VH_C03_Canary() {
 	in := vhInput()
 	_, toks, err := vhRunImpl(vhDefLiteral(), in)
@@ -474,6 +476,7 @@ func VH_C04_PushPop()       { vhC04(vhDefPushPop()) }
 func VH_C04_String()        { vhC04(vhDefString()) }
 func VH_C04_IncludeNested() { vhC04(vhDefIncludeNested()) }
 func VH_C04_MultiLine()     { vhC04(vhDefMultiLine()) }
+func VH_C04_LiteralMB()     { vhC04(vhDefLiteralMB()) }
 func VH_C04_DotAll()        { vhC04(vhDefDotAll()) }
 func VH_C04_NegClass()      { vhC04(vhDefNegClass()) }
 func VH_C04_ElidedActions() { vhC04(vhDefElidedActions()) }
